@@ -134,7 +134,7 @@ def main(a):
         cases = [tuple(json.load(open(a.replay))["case"])]
         cases = [(dict((tuple(k), tuple(val)) for k, val in c[0]), [tuple(x) for x in c[1]], c[2], c[3], c[4], c[5]) for c in cases]
     else:
-        cases = [gen_case(r, True) for _ in range(300 if quick else 30000)]
+        cases = [gen_case(r, True) for _ in range(300 if quick else 100000)]
     _, mo, _ = common.run_lines_parallel([common.driver_path(), "c12"], [model_line(c) for c in cases])
     progs = [render(c) for c in cases]
     outs = common.run_programs(exe, progs, timeout=10)
